@@ -68,7 +68,7 @@ func init() {
 				data := w.GenSimpleList(info, 1)
 				w.ForceUnique(info, data)
 				cmd := model.CmdType{}
-				cmd.SetDataForFunction(fn.Fn, data)
+				SetCmdData(&cmd, fn.Fn, data)
 				return &c12rWrite{name: name, canon: CanonAny(data)}, cmd
 			}
 			var cmd1, cmd2 model.CmdType
